@@ -149,6 +149,11 @@ func schedMain(r *vlib.Run, x *searcher) {
 		{"missing dependency", withv(func(v *Vars) { v.Missing = true }), nil, buildOpts{Target: tTop}, 0, nil},
 		{"dependency cycle", withv(func(v *Vars) { v.Cycle = true }), nil, buildOpts{Target: tTop}, 0, nil},
 		{"dry run", base, nil, buildOpts{Target: tTop, Dry: true}, 0, nil},
+		{"dependency cycle entered from two sides at once (the requested target depends on both members)", Vars{}, nil, buildOpts{Target: tTop}, 1, map[string]string{
+			"dawn.toml":      "name = \"p\"\n",
+			"BUILD.dawn":     "def _mid(t):\n    step(\"mid\")\ntarget(name=\"mid\", function=_mid, deps=[\"//pkg:leaf\"])\ndef _top(t):\n    step(\"top\")\ntarget(name=\"top\", function=_top, deps=[\":mid\", \"//pkg:leaf\"])\n",
+			"pkg/BUILD.dawn": "def _leaf(t):\n    step(\"leaf\")\ntarget(name=\"leaf\", function=_leaf, deps=[\"//:mid\"])\n",
+		}},
 	}
 	bound := 0 // quick: every non-preemptive schedule
 	if r.Thorough() {
@@ -228,7 +233,7 @@ func schedMain(r *vlib.Run, x *searcher) {
 	r.Finish(vlib.Coverage{
 		Evaluations:        r.Get("executions"),
 		DistinctNontrivial: r.Get("scenarios_with_contention"),
-		Rule:               "9 build scenarios (parallel branches, up-to-date, always, failing bodies, missing dependency, dependency cycle, dry run) of the real Project.Run under the controlled scheduler, every interleaving within the preemption bound; non-trivial = scenario with more than one distinct event order",
+		Rule:               "10 build scenarios (parallel branches, up-to-date, always, failing bodies, missing dependency, dependency cycle, dry run) of the real Project.Run under the controlled scheduler, every interleaving within the preemption bound; non-trivial = scenario with more than one distinct event order",
 		States:             r.Get("distinct_event_orders"),
 		Transitions:        r.Get("executions"),
 		TracesValidated:    r.Get("executions"),
@@ -361,12 +366,23 @@ func (x *searcher) doubleRunLines(r *vlib.Run) {
 				vlib.Fatalf("double-run project does not load: %v", err)
 			}
 			l, _ := label.Parse("//:t")
+			// a dry run first (REPL: run(t, dry_run=True) then run(t)): it prints nothing, and the
+			// runs with nil options that follow are real builds again
+			if err := proj.Run(l, &dawn.RunOptions{DryRun: true}); err != nil {
+				vlib.Fatalf("double-run project: dry run: %v", err)
+			}
+			for _, e := range rec.ev {
+				if e.Kind == "Print" {
+					x.r.Violation("C18:lines:output-in-dry-run", fmt.Sprintf("a dry run delivered the line %q", e.Line), map[string]any{"files": files})
+				}
+			}
 			for i := 0; i < 3; i++ {
 				rec.mu.Lock()
 				rec.ev = nil
 				rec.mu.Unlock()
 				if err := proj.Run(l, nil); (err != nil) != failing {
-					vlib.Fatalf("double-run project: build error %v, failing body %v", err, failing)
+					x.r.Violation("C18:protocol:reused-project-run-result", fmt.Sprintf("build %d with nil options on one loaded Project (after a dry run) returned %v; the body fails: %v", i+1, err, failing), map[string]any{"files": files, "body_fails": failing})
+					return
 				}
 				var lines []string
 				done := false
